@@ -1,3 +1,4 @@
+import OhkamiModel.Drv.C01
 import OhkamiModel.Drv.C02
 import OhkamiModel.Drv.C03
 import OhkamiModel.Drv.C09
@@ -20,6 +21,7 @@ partial def loop (h : IO.FS.Stream) (f : Json → Except String Json) : IO Unit 
 def main (args : List String) : IO UInt32 := do
   let stdin ← IO.getStdin
   match args with
+  | ["C01"] | ["C04"] => loop stdin DrvC01.runCase; return 0
   | ["C02"] => loop stdin DrvC02.runCase; return 0
   | ["C03"] => loop stdin DrvC03.runCase; return 0
   | ["C09"] => loop stdin DrvC09.runCase; return 0
